@@ -7,6 +7,7 @@ from corankco.algorithms.copeland.copeland import CopelandMethod
 
 
 class Copeland(Suite):
+    seasoned_rate = 0.12     # share of the cases run on algorithm objects that have served before (algos.seasoned)
     name = "copeland"
     imports = ["Scheme", "Rank", "Judge.JC13"]
     judge = "judge_copeland"
@@ -40,7 +41,11 @@ class Copeland(Suite):
     def run(self, case):
         ds = Dataset.from_raw_list([[set(b) for b in r] for r in case["D"]])
         sc = ScoringScheme(case["s"])
-        cons = CopelandMethod().compute_consensus_rankings(ds, sc, True)
+        alg = CopelandMethod()
+        if case.get("seasoned"):
+            from algos import seasoned
+            seasoned(alg, case["D"], case["s"])
+        cons = alg.compute_consensus_rankings(ds, sc, True)
         U = gen.id_order(ds)
         scores = cons.copeland_scores
         vic = cons.copeland_victories
